@@ -22,6 +22,8 @@ CHECKS = {
          "seeded search over payload classes and sizes up to the limit, client contexts and histories in which earlier invocations succeeded, returned error bodies, timed out, crashed or were oversized; every delivery and every outcome is compared byte for byte, ids must be fresh, ARN/context/deadline exact; sampled"),
  "C14": ("exploration", "3 C14", "full-stack deterministic simulation: sizes around 6 MiB+100 at every position of an invocation sequence, byte and status oracle",
          "response and event sizes in a window around the limit (and 0, 1, limit/2) at every position of 2-6 invocation sequences; decides exactness of the limit in both directions, the 413/ResponseSizeTooLarge pair and survival without reset; sampled positions and mixes"),
+ "C10": ("exploration", "3 C10", "full-stack deterministic simulation: extra callers injected at six phases of an in-flight invocation including lock-site holds; interval and outcome oracle",
+         "seeded search over the arrival of 1-2 extra callers during init, runtime work, extension tail, timeout reset, failure reset and inside lock windows of the first caller's own path; decides pairwise disjointness of in-flight intervals, immediate 4xx refusal, unchanged outcomes of the planned invocations and that the emulator survives; sampled"),
 }
 
 NA = [
